@@ -93,6 +93,16 @@ struct Ledger {
     /// Requests whose complete answer a peer wrote into a connection it then
     /// closed in an orderly way (FIN behind the data), nothing else wrong.
     answered_before_fin: BTreeSet<usize>,
+    /// The streaming request: what the peer sent for it, in order, and what
+    /// the caller got before it let go (or the end).
+    xfer_sent: Vec<Vec<u8>>,
+    xfer_got: Vec<Vec<u8>>,
+    xfer_err: Option<String>,
+    xfer_ended: bool,
+    /// When the streaming request was made / when the peer transmitted the
+    /// last message of its response.
+    xfer_start_ns: Option<u64>,
+    xfer_final_tx_ns: Option<u64>,
 }
 
 type Led = Rc<RefCell<Ledger>>;
@@ -140,6 +150,10 @@ struct Knobs {
     /// every answer it owes in one go and closes its side (FIN) right behind
     /// them. 0 = off.
     fin_after: u32,
+    /// Transfer mode (bare stream transport): a streaming request (a zone
+    /// transfer of this many messages) shares the connection with the plain
+    /// requests. 0 = off.
+    xfer_msgs: u32,
 }
 
 /// Per-server disposition for the composite transports.
@@ -414,6 +428,7 @@ async fn stream_conn_peer(led: Led, kn: Knobs, server: usize, health: Health, ac
     let mut closing: Option<Cut> = None;
     let mut n_rx = 0u32;
     let mut orderly = false;
+    let mut xfer_final: BTreeMap<u16, Vec<u8>> = BTreeMap::new();
     loop {
         // Write everything that is due.
         let now = sim::now_ns();
@@ -437,8 +452,13 @@ async fn stream_conn_peer(led: Led, kn: Knobs, server: usize, health: Health, ac
             ev!("peer{} conn{} tx {} octets", server, index, bytes.len());
             // Any complete message carrying an id releases the client's slot
             // for that id (even if it is not accepted as the answer).
-            if bytes.len() >= 14 {
+            // (A transfer's id is released by its last message only.)
+            let mid_transfer = bytes.len() >= 14 && xfer_final.get(&u16::from_be_bytes([bytes[2], bytes[3]])).is_some_and(|f| *f != bytes);
+            if bytes.len() >= 14 && !mid_transfer {
                 let id = u16::from_be_bytes([bytes[2], bytes[3]]);
+                if xfer_final.remove(&id).is_some() {
+                    led.borrow_mut().xfer_final_tx_ns = Some(sim::now_ns());
+                }
                 for (i, k, _) in in_flight.iter() {
                     if *i == id {
                         if let Some(k) = k {
@@ -522,6 +542,23 @@ async fn stream_conn_peer(led: Led, kn: Knobs, server: usize, health: Health, ac
                 }
             }
             in_flight.push((p.id, k, sim::now_ns()));
+            if p.qtype == Some(Rtype::AXFR) {
+                // A zone transfer: its messages follow one another a few
+                // milliseconds apart; the id stays taken until the last one.
+                let msgs = dns::mk_xfer_msgs(&body, kn.xfer_msgs.max(1) as usize);
+                let now = sim::now_ns();
+                let mut at = now + sim::draw("peer.xfer_first_ms", 5) * 1_000_000;
+                for (i, m) in msgs.iter().enumerate() {
+                    let framed = dns::frame(m);
+                    if i + 1 == msgs.len() {
+                        xfer_final.insert(p.id, framed.clone());
+                    }
+                    pending.push((at, framed, false));
+                    at += sim::draw("peer.xfer_gap_ms", 12) * 1_000_000;
+                }
+                led.borrow_mut().xfer_sent = msgs;
+                continue;
+            }
             let r = react(&led, &kn, server, health, Via::Stream, &body, &p, kn.st_response_timeout_ms);
             if r.vanish {
                 ev!("peer{} conn{} vanishes", server, index);
@@ -591,8 +628,12 @@ async fn client_task(led: Led, kn: Knobs, conn: Conn, ks: Vec<usize>, gaps: Vec<
             // idle timeout has elapsed since the last such answer, the
             // transport may have shut down (5 ms slack).
             let earlier: Vec<usize> = (0..l.reqs.len()).filter(|j| l.reqs[*j].start_ns > 0 || l.reqs[*j].end.is_some()).collect();
-            if !earlier.is_empty() && earlier.iter().all(|j| l.answered_ns[*j].is_some() || l.reqs[*j].end.is_some()) {
-                let t_idle = earlier.iter().filter_map(|j| l.answered_ns[*j]).max().unwrap_or(0);
+            // (The streaming request counts like any other: made, and
+            // answered once the peer has sent its last message.)
+            let xfer_made = l.xfer_start_ns.is_some();
+            let xfer_open = xfer_made && l.xfer_final_tx_ns.is_none() && l.xfer_err.is_none();
+            if (!earlier.is_empty() || xfer_made) && !xfer_open && earlier.iter().all(|j| l.answered_ns[*j].is_some() || l.reqs[*j].end.is_some()) {
+                let t_idle = earlier.iter().filter_map(|j| l.answered_ns[*j]).chain(l.xfer_final_tx_ns).max().unwrap_or(0);
                 if start + 5_000_000 >= t_idle + kn.st_idle_timeout_ms * 1_000_000 {
                     l.idle_closed = true;
                 }
@@ -783,7 +824,20 @@ async fn run(_tier: Tier) {
         dg_max_parallel: *sim::pick("cfg.dg_max_parallel", &[100usize, 1, 2]),
         dg_recv_size: *sim::pick("cfg.dg_recv_size", &[2000usize, 512, 100]),
         fin_after: if !faulty && matches!(kind, Kind::Stream | Kind::Multi) && sim::chance("cfg.orderly_fin", 1, 2) { 2 + sim::draw("cfg.fin_after", 3) as u32 } else { 0 },
+        xfer_msgs: 0,
     };
+    let mut kn = kn;
+    if kn.kind == Kind::Stream && kn.fin_after == 0 && sim::chance("cfg.transfer_on_the_connection", 1, 3) {
+        kn.xfer_msgs = 2 + sim::draw("cfg.xfer_msgs", 12) as u32;
+        // (Not with "close as soon as nothing is outstanding": whether the
+        // streaming request is registered before the connection notices that
+        // the last plain one was answered is a tie the model cannot call.)
+        if kn.st_idle_timeout_ms == 0 {
+            kn.st_idle_timeout_ms = 1000;
+        }
+        sim::stat("probe.streaming_request_shares_the_connection");
+    }
+    let kn = kn;
     ev!("knobs {:?}", kn);
 
     let exec = Exec::new();
@@ -826,6 +880,11 @@ async fn run(_tier: Tier) {
     let mut st_cfg = stream::Config::new();
     st_cfg.set_response_timeout(Duration::from_millis(kn.st_response_timeout_ms));
     st_cfg.set_idle_timeout(Duration::from_millis(kn.st_idle_timeout_ms));
+    if kn.xfer_msgs > 0 {
+        // The gap allowed between two messages of a streaming response is a
+        // knob of its own - and concerns streaming responses only.
+        st_cfg.set_streaming_response_timeout(Duration::from_secs(60));
+    }
     let mut ms_cfg = multi_stream::Config::from(st_cfg.clone());
     ms_cfg.set_response_timeout(Duration::from_millis(kn.ms_response_timeout_ms));
 
@@ -851,12 +910,17 @@ async fn run(_tier: Tier) {
     let mk_st = |s: usize| listeners[s].connector(addr(1, 40_000), stream_planner(faulty, kind != Kind::Stream, connect_faults.clone()));
 
     // Build the transport under test.
+    type ReqMulti = domain::net::client::request::RequestMessageMulti<Vec<u8>>;
+    let mut xfer_conn: Option<stream::Connection<RequestMessage<Vec<u8>>, ReqMulti>> = None;
     let conn: Conn = match kind {
         Kind::Dgram => Rc::new(dgram::Connection::with_config(mk_dg(0), dg_cfg.clone())),
         Kind::Stream => {
             let c = mk_st(0).connect_sim().await.expect("fault-free first connect");
-            let (conn, tr) = stream::Connection::<RequestMessage<Vec<u8>>, domain::net::client::request::RequestMessageMulti<Vec<u8>>>::with_config(c, st_cfg.clone());
+            let (conn, tr) = stream::Connection::<RequestMessage<Vec<u8>>, ReqMulti>::with_config(c, st_cfg.clone());
             tokio::spawn(tr.run());
+            if kn.xfer_msgs > 0 {
+                xfer_conn = Some(conn.clone());
+            }
             Rc::new(conn)
         }
         Kind::Multi => {
@@ -915,6 +979,51 @@ async fn run(_tier: Tier) {
             Rc::new(conn)
         }
     };
+
+    // The streaming request: started at a drawn moment, read for a while -
+    // to the end, or dropped after a few messages - on the connection the
+    // plain requests use.
+    if let Some(xc) = xfer_conn {
+        let led2 = led.clone();
+        let n_msgs = kn.xfer_msgs as usize;
+        let start_ms = sim::draw("xfer.start_ms", 30);
+        let read_n = if sim::chance("xfer.read_to_the_end", 1, 2) { usize::MAX } else { 1 + sim::draw("xfer.read_n", n_msgs as u64) as usize };
+        let pause_ms = sim::draw("xfer.read_pause_ms", 8);
+        exec.spawn("xfer".to_string(), async move {
+            use domain::net::client::request::SendRequestMulti;
+            sim::sleep_ms(start_ms).await;
+            let req = ReqMulti::new(dns::mk_query("xfer.sim.", Rtype::AXFR, false)).expect("transfer request");
+            ev!("transfer request invoke");
+            led2.borrow_mut().xfer_start_ns = Some(sim::now_ns());
+            let mut g = SendRequestMulti::send_request(&xc, req);
+            let mut got = 0usize;
+            while got < read_n {
+                match g.get_response().await {
+                    Ok(Some(m)) => {
+                        sim::sync_clock();
+                        got += 1;
+                        led2.borrow_mut().xfer_got.push(m.as_slice().to_vec());
+                        if pause_ms > 0 {
+                            sim::sleep_ms(pause_ms).await;
+                        }
+                    }
+                    Ok(None) => {
+                        led2.borrow_mut().xfer_ended = true;
+                        break;
+                    }
+                    Err(e) => {
+                        led2.borrow_mut().xfer_err = Some(format!("{:?}", e));
+                        break;
+                    }
+                }
+            }
+            if got >= read_n && got < n_msgs {
+                sim::stat("fault.streaming_request_dropped_midway");
+                ev!("transfer request dropped after {} of {} messages", got, n_msgs);
+            }
+            drop(g);
+        });
+    }
 
     // Workload.
     // Usually a handful of callers; now and then a crowd of ten to sixteen
@@ -986,6 +1095,30 @@ async fn run(_tier: Tier) {
 
 fn check(led: &Led, kn: &Knobs, total: usize, finished: bool, connect_faults: &[u64], n_clients: usize) {
     let l = led.borrow();
+    // The streaming request: what the caller got is what the peer sent, in
+    // order, from the first message on (id aside: same exchange), and without
+    // a stream fault in the run it neither fails nor ends early.
+    if kn.xfer_msgs > 0 {
+        for (i, m) in l.xfer_got.iter().enumerate() {
+            let same = l.xfer_sent.get(i).is_some_and(|s| s.len() == m.len() && s[2..] == m[2..]);
+            if !same && l.stream_faults == 0 {
+                sim::violation(P, "attribution", "streaming-response-message-out-of-sequence", format!("message {} handed to the streaming request is not message {} of the {} the peer sent for it", i + 1, i + 1, l.xfer_sent.len()));
+                return;
+            }
+        }
+        if l.stream_faults == 0 && connect_faults.is_empty() {
+            if let Some(e) = &l.xfer_err {
+                if !(kn.st_idle_timeout_ms == 0 && e.contains("ConnectionClosed")) {
+                    sim::violation(P, "unexplained-error", format!("streaming/{}", short_err(e)), format!("the streaming request failed with {} after {} of {} messages although nothing disturbed the connection", e, l.xfer_got.len(), l.xfer_sent.len()));
+                    return;
+                }
+            }
+            if l.xfer_ended && l.xfer_got.len() != l.xfer_sent.len() {
+                sim::violation(P, "attribution", "streaming-response-ended-early", format!("the streaming request ended after {} of the {} messages the peer sent", l.xfer_got.len(), l.xfer_sent.len()));
+                return;
+            }
+        }
+    }
     let slack = 200_000_000u64;
     // With fewer datagram slots than callers a request first waits for the
     // requests in front of it (the transport does not put a bound on that
@@ -1037,7 +1170,15 @@ fn check(led: &Led, kn: &Knobs, total: usize, finished: bool, connect_faults: &[
         };
         if let Some(b) = bound {
             let slack = if kn.kind == Kind::Dgram { 20_000_000 } else { slack };
-            if elapsed > b + slack {
+            // Known finding: one timer per connection - a plain request
+            // overlapped by a streaming request waits for the streaming
+            // timeout (60 s here) instead of its own.
+            let overlapped = kn.xfer_msgs > 0 && l.xfer_start_ns.is_some_and(|xs| xs <= *end_ns && r.start_ns <= l.xfer_final_tx_ns.map(|t| t + 20_000_000).unwrap_or(u64::MAX));
+            if elapsed > b + slack && overlapped && elapsed <= b + slack + 60_000_000_000 {
+                if sim::violation(P, "completion", "late/Stream/plain-request-while-a-streaming-request-is-in-progress".to_string(), format!("request k={} completed after {} ms (budget {} ms): a streaming request was in progress on the connection", k, elapsed / 1_000_000, b / 1_000_000)) {
+                    return;
+                }
+            } else if elapsed > b + slack {
                 sim::violation(
                     P,
                     "completion",
